@@ -52,17 +52,11 @@ def run():
         e["meta"] = {"case": k}
         c.count_nontrivial(json.dumps(k, sort_keys=True))
     if not c.replay_path:
-        src = next(e for e in c.events if e["fn"] == "whist" and any(s["outcome"] == "ValueError" for s in e["steps"][:1]))
-        e = copy.deepcopy(src)
-        e["steps"][0]["outcome"] = "IndexError"
-        c.add_negative(e, "C20.outcome")
-        e = copy.deepcopy(src)
-        e["steps"][0]["frame"] = False
-        c.add_negative(e, "C20.frame")
-        src = next(e for e in c.events if e["fn"] == "reject_misc")
-        e = copy.deepcopy(src)
-        e["outcome"] = "returned:NoneType"
-        c.add_negative(e, "C20.")
+        refused_first = lambda e: e["fn"] == "whist" and any(s["outcome"] == "ValueError" and s["frame"] for s in e["steps"][:1])
+        c.negative_from(c.events, refused_first, lambda e: e["steps"][0].__setitem__("outcome", "IndexError"), "C20.outcome")
+        c.negative_from(c.events, refused_first, lambda e: e["steps"][0].__setitem__("frame", False), "C20.frame")
+        c.negative_from(c.events, lambda e: e["fn"] == "reject_misc" and e["outcome"] == "ValueError",
+                        lambda e: e.__setitem__("outcome", "returned:NoneType"), "C20.")
     c.rule = ("Weaver-level: every maximal history of MC_Weaver that contains a refused request (inverted range, negative start, stop beyond "
               "the length - the frame condition is an action property of the model) replayed on a real Weaver, plus seeded random histories "
               "(length 0..6 + recreate + match) interleaved with 15 kinds of invalid requests (inverted / empty range, out-of-range index "
